@@ -151,6 +151,22 @@ def drive(recipe):
         try:
             base = SymmetryOperation.from_integer_code(c)
             delta = np.array(kv, dtype=float) + np.array(NOISE[noise], dtype=float)
+            if route == "func":
+                # the module-level encoders on the raw matrix form (translation outside [0, 1), e.g. x-1/2 or t - n)
+                from chmpy.crystal.symmetry_operation import encode_symm_int, encode_symm_str, decode_symm_int, decode_symm_str
+                rot = np.array(base.rotation)
+                tr = np.array(base.translation) + delta
+                code = int(encode_symm_int(rot, tr))
+                text = str(encode_symm_str(rot, tr % 1))
+                r2, t2 = decode_symm_int(code)
+                r3, t3 = decode_symm_str(encode_symm_str(rot, tr))
+                op = SymmetryOperation(np.array(r2), np.array(t2))
+                op3 = SymmetryOperation(np.array(r3), np.array(t3))
+                ref = base
+                t["code"], t["text"] = code, text
+                t["eq"] = bool(op == ref and op3 == ref and int(op.integer_code) == code == int(op3.integer_code))
+                t["hasheq"] = bool(hash(op) == hash(ref) == hash(op3))
+                raise StopIteration
             if route == "ctor":
                 op = SymmetryOperation(np.array(base.rotation), np.array(base.translation) + delta)
                 ref = base
@@ -165,6 +181,8 @@ def drive(recipe):
             t["text"] = str(op)
             t["eq"] = bool(op == ref)
             t["hasheq"] = bool(hash(op) == hash(ref))
+        except StopIteration:
+            pass
         except Exception as e:
             t["exc"] = type(e).__name__
     elif k == "apply":
@@ -173,6 +191,9 @@ def drive(recipe):
              "hascart": False, "cart": []}
         try:
             op = SymmetryOperation.from_integer_code(c)
+            if recipe.get("introt"):
+                # the same operation built by a caller from an integer rotation matrix (and a float translation)
+                op = SymmetryOperation(np.array(np.round(op.rotation), dtype=int), np.array(op.translation, dtype=float))
             x = np.array(pts, dtype=float) / n
             off = False
             o3 = op.apply(x)
@@ -259,7 +280,7 @@ def run(ctx):
     for _ in range(ctx.pick(3000, 60000)):
         c = rng.choice(nz) if rng.random() < 0.7 else rng.randrange(NCODES)
         recipes.append({"k": "shift", "c": c, "kv": [rng.randint(-3, 3) for _ in range(3)],
-                        "noise": rng.choice(list(NOISE)), "route": rng.choice(["ctor", "add", "sub", "inv"])})
+                        "noise": rng.choice(list(NOISE)), "route": rng.choice(["ctor", "add", "sub", "inv", "func"])})
     for _ in range(ctx.pick(600, 6000)):
         n = rng.choice([12, 24, 48])
         pts = [[rng.randint(-2 * n, 2 * n) for _ in range(3)] for _ in range(rng.randint(1, 6))]
@@ -276,7 +297,7 @@ def run(ctx):
                 recipes.append({"k": "apply", "c": rr["ops"][idx], "n": n, "pts": pts, "warm": "R" if rr["choice"] == "H" else "H",
                                 "sg": [rr["number"], rr["choice"], idx, cell], "src": "crystal switched in place"})
         else:
-            recipes.append({"k": "apply", "c": rng.randrange(NCODES), "n": n, "pts": pts})
+            recipes.append({"k": "apply", "c": rng.randrange(NCODES), "n": n, "pts": pts, "introt": rng.random() < 0.4})
     # free texts, judged by the specification's own reader (SymopText.tla): the operation strings of the repository's
     # CIF files, and rows composed term by term (any order, negative numbers, decimals of 3-5 digits, integer translations)
     import glob, re as _re
